@@ -10,6 +10,10 @@ Open Scope N_scope.
 Module CF := Generated.CategoryFacts.
 
 (* ------------------------------------------------------------------ obligations on the generated facts *)
+(* every source shape the fact translator looks at was recognised (otherwise the model runs on the values of the property
+   statement and this obligation fails, naming the unrecognised shapes) *)
+Fact fact_all_shapes_recognised : OF.unrecognised = [].
+Proof. vm_compute. reflexivity. Qed.
 Fact fact_continuity_forward : OF.continuity_forward = true.
 Proof. vm_compute. reflexivity. Qed.
 Fact fact_mecab_break_cmp : OF.mecab_break_cmp = ">"%string.
